@@ -144,7 +144,7 @@ API = ("draw", "probability_density", "probability", "cumulative_probability", "
 # methods that become definitions of their own (coq/Dist/GenAgree.v has a theorem about each); every OTHER method or
 # module-level function that is called is a private helper and is translated at the call site (inlined)
 KEPT = set(API) | {"_next_open_float", "_next_gaussian", "cumulative_probability_not_truncated",
-                   "inverse_cumulative_probability_not_truncated"}
+                   "inverse_cumulative_probability_not_truncated", "_draw_product"}
 # groups: "draw" = constructor + draw (C14), "density" = density functions (C15)
 
 
@@ -156,7 +156,7 @@ def groups_of(cname):
 
 
 # value universe of the parameters of the non-constructor methods (constructor parameters: P)
-PARAMS = {"x": "F", "y": "F", "observation": "Z"}
+PARAMS = {"x": "F", "y": "F", "observation": "Z", "expl": "F"}
 GTYPE = {"F": "F", "Z": "Z", "B": "bool", "V": "value F", "G": "(F * F)", "OG": "option (F * F)", "P": "param F"}
 BUILTINS_USED = ("float", "isinstance", "int", "super", "range", "abs", "DistGamma")
 
@@ -1742,6 +1742,9 @@ class Translator:
         for n in ast.walk(s):
             if n is not s and isinstance(n, (ast.While, ast.For)):
                 self.fail(n, "nested loop")
+        if self.loopstack:
+            self.fail(s, "a loop reached inside the body of another loop (through an inlined private method); "
+                         "methods with loops that are called from loops must be in KEPT")
         body = list(s.body)
         kind = None
         init_fuel = None
